@@ -254,3 +254,27 @@ func VerifTruncatedToHeader() {
 	zzverif.Cover("truncated_to_header_done")
 	zzverif.Assert(err != io.EOF, "payload_removed_entirely_does_not_end_cleanly")
 }
+
+// What makes a moved, duplicated or dropped segment fail to authenticate is that every position has its own nonce:
+// for ANY two positions (segment number 0..2^32-1, last flag) that differ, the nonces differ (and both start with the
+// document's nonce prefix, so segments of another document never fit either). tamper_stream explores short documents;
+// this lemma covers positions a short document never reaches (e.g. segments 65 536 apart).
+//
+//verif:harness prop=C02 name=nonce_injective unwind=16
+func VerifNonceInjective() {
+	fk := fileKey{noncePrefix: zzverif.Bytes("nonce_prefix", 7)}
+	n1, n2 := zzverif.Uint32("num1"), zzverif.Uint32("num2")
+	l1, l2 := zzverif.Bool("last1"), zzverif.Bool("last2")
+	zzverif.Assume(zzverif.Or(n1 != n2, l1 != l2))
+	a := fk.nonceForSegment(n1, l1)
+	b := fk.nonceForSegment(n2, l2)
+	zzverif.Assert(len(a) == 12 && len(b) == 12, "nonce_length")
+	zzverif.Assert(!zzverif.EqBytes(a, b), "different_positions_have_different_nonces")
+	zzverif.Assert(zzverif.EqBytes(a[:7], fk.noncePrefix), "nonce_starts_with_the_document_prefix")
+	other := fileKey{noncePrefix: zzverif.Bytes("other_prefix", 7)}
+	if !zzverif.EqBytes(other.noncePrefix, fk.noncePrefix) {
+		c := other.nonceForSegment(n1, l1)
+		zzverif.Assert(!zzverif.EqBytes(a, c), "another_document_has_other_nonces")
+	}
+	zzverif.Cover("nonce_injective_done")
+}
